@@ -122,6 +122,27 @@ func buildSchemas(raw json.RawMessage) (*jsonschema.Schema, []*jsonschema.Schema
 			}
 		}
 	}
+	// PropertyOrder slices that are a strict prefix (by value) of another node's PropertyOrder are re-sliced from that one's backing
+	// array: two Schema values may legitimately share such an array (order[:1] and order); Marshal must neither write into it nor
+	// be confused by it.
+	for i := range nodes {
+		for j := range nodes {
+			pi, pj := nodes[i].PropertyOrder, nodes[j].PropertyOrder
+			if i == j || len(pi) == 0 || len(pi) >= len(pj) {
+				continue
+			}
+			same := true
+			for k := range pi {
+				if pi[k] != pj[k] {
+					same = false
+				}
+			}
+			if same {
+				nodes[i].PropertyOrder = pj[:len(pi)]
+				break
+			}
+		}
+	}
 	if d.Root == nil || *d.Root < 0 || *d.Root >= len(nodes) {
 		return nil, nodes, nil
 	}
